@@ -111,6 +111,11 @@ def job_core(payload):
         e = g.anyprog(ts, {}, rng.randint(0, 3))
         e2 = g.push(ts, {}, 1)[0]
         etxt, e2txt = zast.text(("paren", (), e)) if e[0] in ("alt", "or") else zast.text(e), zast.text(("paren", (), e2))
+        if rng.random() < 0.4:
+            # values with non-zero positions, of several types, at the bottom of every stack (they are part of "the surrounding stack")
+            items = rng.sample(['[ 7 ]', '"s"', '5', '[ [ ] , 1 ]', '[ ]', '0x10', '[ "a" ]'], rng.randint(2, 3))
+            ptxt = "[ %s ] elem ( %s )" % (" , ".join(items), ptxt)
+            out["positioned"] = out.get("positioned", 0) + 1
         out["n"] += 1
         zcheck.tally_ctx(out, ("sub", True, (), e))
         if len(out["samples"]) < 2:
@@ -203,8 +208,30 @@ def job_words(payload):
     return out
 
 
+def repeated_ops_file():
+    """Location expressions in which one operation occurs once, twice, three and five times (?OP_x / !OP_x on the whole expression)."""
+    from vf import dwgen
+    D = dwgen.Die
+    exprs = {b"v1": [("breg7", 0), ("deref",)],
+             b"v2": [("breg7", 0), ("breg7", 8), ("plus",), ("deref",), ("deref",)],
+             b"v3": [("dup",), ("dup",), ("dup",), ("drop",), ("drop",), ("drop",), ("breg7", 0)],
+             b"v5": [("lit0",)] * 5 + [("plus",)] * 4 + [("stack_value",)]}
+    kids = [D("variable", [("name", "string", nm), ("location", "exprloc", ex)]) for nm, ex in sorted(exprs.items())]
+    root = D("compile_unit", [("name", "string", b"rep.c")], kids)
+    os.makedirs(os.path.join(common.RUN, "C04"), exist_ok=True)
+    path = os.path.join(common.RUN, "C04", "repeated-ops.o")
+    dwgen.write(dwgen.Forest([dwgen.Unit(root, version=4)]), path)
+    return path, sorted(exprs)
+
+
 def operand_pool():
     t = os.path.join(common.REPO, "tests")
+    rp, rnames = repeated_ops_file()
+    rep = [("d:" + common.hx(rp) + ",q:" + common.hx('entry (name == "%s") @AT_location' % nm.decode()), "loclist_elem:" + nm.decode()) for nm in rnames]
+    return rep + operand_pool_fixed(t)
+
+
+def operand_pool_fixed(t):
     f = "d:" + common.hx(os.path.join(t, "nontrivial-types.o"))
     fr = "r:" + common.hx(os.path.join(t, "nontrivial-types.o"))
     fa = "d:" + common.hx(os.path.join(t, "a1.out"))
@@ -276,6 +303,7 @@ def run(chk):
                 "non-trivial = partition in which both ?(E) and !(E) yielded something, or a word pair whose positive flavour held",
         "partitions_compared": tot.get("partition", 0), "infix_checked": tot.get("infix", 0),
         "captures_checked": tot.get("capture", 0), "lets_checked": tot.get("let", 0),
+        "producers_with_positioned_values_below": tot.get("positioned", 0),
         "dwarf_files": [os.path.basename(f) for f in files],
         "assertion_word_pairs_in_vocabulary": len(aw), "operand_kinds": [t for _, t in ops],
         "word_pair_cells": wt.get("pairs", 0), "cells_positive_held": wt.get("held", 0), "cells_negative_held": wt.get("nothold", 0),
